@@ -7,7 +7,7 @@ import z3
 
 from pyvc import ops, specfn
 from pyvc.interp import LoopSpec
-from pyvc.sym import SSeq, SInt, SBool, ListObj, Obj, SeqI, SeqSeqI, IntS, mk_bool, mk_int, as_int_term
+from pyvc.sym import SSeq, SInt, SBool, ListObj, Obj, SeqI, SeqSeqI, IntS, mk_bool, mk_int, as_int_term, Unsupported
 from pyvc.unit import Contract, Case, NOTHING
 from contracts import objs
 
@@ -99,3 +99,587 @@ def register(reg):
     reg.add(g, Contract(MOD + ":SparseMerkleProof.update", ["self", "key", "value", "node_updates"], upd_cases,
                         setup=upd_setup, props=("C15",),
                         loops={0: LoopSpec(upd_inv, fresh={"bit": "int", "branch_point": "unbound"})}))
+    register_tree(reg)
+    register_tree_write(reg)
+    register_tree_write2(reg)
+    register_tree_init(reg)
+    register_tree_fromdb(reg)
+    register_calc_root(reg)
+
+
+# =====================================================================================================
+# SparseMerkleTree (C14)
+#
+# Ghost model (ideal-hash reading, as for the hexary trie): the content of the node with hash h is unkeccak(h);
+# an inner node is the concatenation of its two 32-byte child hashes.
+#     L(h) = unkeccak(h)[:32]            R(h) = unkeccak(h)[32:]
+#     pn(root, p, D, i)   hash of the node at depth i on the path of the integer key p (bit D-1-i selects the child)
+#     sib(root, p, D, i)  the other child of pn(.., i): the sibling met when stepping from depth i to i+1
+#     dn(h, j, q)         the leaf hash reached from the node h of height j along the low j bits of q
+#     agree(p, q, j)      p and q have the same low j bits
+# pn, dn and agree are uninterpreted and unfolded one step at the iteration index of the loop that walks them.
+# The value stored under q in the tree with root r is unkeccak(dn(r, D, q)).
+# Store invariant (assumed on every read, proved on every write): an entry is stored under the keccak of its value.
+
+GI = z3.Int("gi!pos")        # ghost: an arbitrary position / depth (clauses proved for it hold for every one)
+pn = z3.Function("smt_pn", SeqI, IntS, IntS, IntS, SeqI)
+dn = z3.Function("smt_dn", SeqI, IntS, IntS, SeqI)
+agree = z3.Function("smt_agree", IntS, IntS, IntS, z3.BoolSort())
+unk = specfn.unkeccak
+
+
+def L(h):
+    return z3.Extract(unk(h), z3.IntVal(0), z3.IntVal(32))
+
+
+def R(h):
+    return z3.Extract(unk(h), z3.IntVal(32), z3.Length(unk(h)) - 32)
+
+
+def sib(root, p, D, i):
+    cur = pn(root, p, D, i)
+    return z3.If(testbit(p, D - 1 - i), L(cur), R(cur))
+
+
+def unfold_pn(E, root, p, D, i):
+    """definitional step of pn at depth i"""
+    cur = pn(root, p, D, i)
+    E.assume(mk_bool(pn(root, p, D, z3.IntVal(0)) == root))
+    E.assume(mk_bool(z3.Implies(i >= 0, pn(root, p, D, i + 1) == z3.If(testbit(p, D - 1 - i), R(cur), L(cur)))))
+
+
+def unfold_dn(E, h, j, q):
+    """definitional step of dn at the node h of height j + 1"""
+    E.assume(mk_bool(dn(h, z3.IntVal(0), q) == h))
+    E.assume(mk_bool(z3.Implies(j >= 0, dn(h, j + 1, q) == dn(z3.If(testbit(q, j), R(h), L(h)), j, q))))
+
+
+def unfold_agree(E, p, q, j):
+    E.assume(mk_bool(agree(p, q, z3.IntVal(0))))
+    E.assume(mk_bool(z3.Implies(j >= 0, agree(p, q, j + 1) == z3.And(agree(p, q, j), testbit(p, j) == testbit(q, j)))))
+
+
+wfh = z3.Function("smt_wfh", SeqI, IntS, z3.BoolSort())     # the subtree of height j under hash h is well formed
+
+
+def unfold_wfh(E, h, j):
+    """definitional step: a node of height j + 1 is well formed iff it is a pair of 32-byte hashes of well-formed
+    nodes of height j (every node of height 0 -- a leaf, any byte string -- is)"""
+    E.assume(mk_bool(wfh(h, z3.IntVal(0))))
+    E.assume(mk_bool(z3.Implies(j >= 0, wfh(h, j + 1) == z3.And(z3.Length(unk(h)) == 64, wfh(L(h), j), wfh(R(h), j)))))
+
+
+def path_wf_clause(root, p, D, upto, at=None):
+    """every node on the path of p down to depth `upto` roots a well-formed subtree (stated at one depth)"""
+    at = GI if at is None else at
+    return z3.Implies(z3.And(at >= 0, at <= upto), wfh(pn(root, p, D, at), D - at))
+
+
+def inst_path_wf(E, idx):
+    for (root, p, D) in E.ghost.get("smt_pathwf_rules", []):
+        E.assume(mk_bool(path_wf_clause(root, p, D, D, at=idx)))
+
+
+class SmtDbInvariant:
+    """store invariant of the sparse Merkle tree: content addressed"""
+
+    def on_read(self, E, d, kt, vt):
+        E.assume(mk_bool(vt == unk(kt)))
+        E.assume(mk_bool(specfn.keccak(unk(kt)) == kt))
+        return unk(kt)
+
+    def on_write(self, E, d, kt, vt):
+        E.assume(mk_bool(z3.Implies(z3.Select(d.has, kt), z3.Select(d.val, kt) == unk(kt))))
+        E.prove("store-write/content-addressed", mk_bool(kt == specfn.keccak(vt)), kind="frame",
+                detail="db[k] = v is executed with k = keccak(v)")
+        E.prove("store-write/existing-entry-unchanged",
+                mk_bool(z3.Implies(z3.Select(d.has, kt), z3.Select(d.val, kt) == vt)), kind="frame")
+
+
+def mk_tree(E):
+    t = objs.mk_smt(E)
+    t.fields["db"].hooks = SmtDbInvariant()
+    return t
+
+
+def tree_terms(ctx, key):
+    s = ctx.self
+    D = as_int_term(ctx.old_field(s, "depth"))
+    root = ops.seq_term_as(ctx.old_field(s, "root_hash"), "int")
+    p = to_int(ops.seq_term_as(key, "int"))
+    return s, D, root, p
+
+
+def assume_tree_wf(E, root, D):
+    """representation invariant of SparseMerkleTree, assumed on entry of every unit and proved on exit of every
+    operation that changes the root: the tree under the root is well formed (every inner node is the concatenation of
+    two 32-byte hashes) and the root is a 32-byte hash"""
+    E.assume(mk_bool(wfh(root, D)))
+    E.assume(mk_bool(z3.Length(root) == 32))
+
+
+def tree_wf_requires(E, ctx):
+    s = ctx.self
+    D = as_int_term(s.fields["depth"])
+    root = ops.seq_term_as(s.fields["root_hash"], "int")
+    return [("tree-well-formed", mk_bool(z3.And(wfh(root, D), z3.Length(root) == 32)))]
+
+
+def complete(has, root, p, D):
+    """every node on the path of p, down to the leaf, is in the database"""
+    j = z3.Int("j!complete")
+    return z3.ForAll([j], z3.Implies(z3.And(j >= 0, j <= D), z3.Select(has, pn(root, p, D, j))),
+                     patterns=[pn(root, p, D, j)])
+
+
+def good_key(ctx, key):
+    return z3.Length(ops.seq_term_as(key, "int")) == as_int_term(ctx.old_field(ctx.self, "_key_size"))
+
+
+def siblings_clause(b, root, p, D, upto, at=None):
+    """b is the tuple of the siblings met down to depth `upto`, root to leaf -- stated at one position (default: the
+    arbitrary ghost position GI, which proves it for every position)"""
+    at = GI if at is None else at
+    return z3.And(z3.Length(b) == upto, z3.Implies(z3.And(at >= 0, at < upto), b[at] == sib(root, p, D, at)))
+
+
+def assume_siblings(E, b, root, p, D):
+    """callee view of a branch returned by _get / branch: a rule that is instantiated at the positions a caller
+    looks at (no quantified fact reaches the solvers), and at the ghost position"""
+    E.ghost.setdefault("smt_sibling_rules", []).append((b, root, p, D))
+    E.assume(mk_bool(siblings_clause(b, root, p, D, D)))
+
+
+def inst_siblings(E, idx):
+    for (b, root, p, D) in E.ghost.get("smt_sibling_rules", []):
+        E.assume(mk_bool(siblings_clause(b, root, p, D, D, at=idx)))
+
+
+# _get ---------------------------------------------------------------------------------------------------
+def sget_setup(E):
+    t = mk_tree(E)
+    key = E.fresh_seq("key", "bytes")
+    assume_tree_wf(E, t.fields["root_hash"].t, as_int_term(t.fields["depth"]))
+    return {"self": t, "key": key}
+
+
+def sget_cases(E, ctx):
+    s, D, root, p = tree_terms(ctx, ctx.key)
+    leaf = pn(root, p, D, D)
+    has = ctx.old_has(s.fields["db"])
+    ok = good_key(ctx, ctx.key)
+    comp = complete(has, root, p, D)
+    unit_mode = hasattr(ctx, "outcome")
+
+    def ens(res):
+        v, b = res
+        return [("value-is-the-leaf-content", mk_bool(ops.seq_term_as(v, "int") == unk(leaf))),
+                ("leaf-is-where-the-key-leads", mk_bool(leaf == dn(root, D, p))),
+                ("path-nodes-root-well-formed-subtrees", mk_bool(path_wf_clause(root, p, D, D))),
+                ("branch-holds-the-siblings-root-to-leaf", mk_bool(siblings_clause(ops.seq_term(b), root, p, D, D)))]
+
+    def make():
+        b = E.fresh_seq("branch", "tuple", "bytes")
+        assume_siblings(E, b.t, root, p, D)
+        E.ghost.setdefault("smt_pathwf_rules", []).append((root, p, D))
+        E.assume(mk_bool(leaf == dn(root, D, p)))
+        s.fields["db"].hooks.on_read(E, s.fields["db"], leaf, z3.Select(s.fields["db"].val, leaf))
+        return (SSeq(unk(leaf), "bytes"), b)
+    return [Case("found", when=mk_bool(z3.And(ok, comp)), ensures=ens if unit_mode else None,
+                 make=None if unit_mode else make),
+            Case("node-missing", when=mk_bool(z3.And(ok, z3.Not(comp))), raises=KeyError),
+            Case("bad-key", when=mk_bool(z3.Not(ok)), raises=vt(E))]
+
+
+def bind_pow2_local(E, fr, name, exp, live):
+    """the loop counter `name` equals 2**exp while `live` holds, 0 afterwards.  Returns the equation; in the
+    assumed-invariant phase (the local has just been havoced to a fresh constant) the local is re-bound to the
+    power-of-two term itself, so that `path & target_bit` in the body is read through testbit"""
+    tb = fr.locals[name]
+    want = z3.If(live, pow2(exp), 0) if live is not True else pow2(exp)
+    t = as_int_term(tb)
+    eq = mk_bool(t == want)
+    if z3.is_const(t) and t.decl().kind() == z3.Z3_OP_UNINTERPRETED:
+        if live is True or E.implied(mk_bool(live)):
+            fr.locals[name] = mk_int(pow2(exp))
+        else:
+            fr.locals[name] = mk_int(want)
+    E.assume(mk_bool(z3.Implies(exp >= 0, pow2(exp) >= 1)))       # facts about 2**n (DESIGN 6.3)
+    E.assume(mk_bool(pow2(z3.IntVal(0)) == 1))
+    return eq
+
+
+def sget_inv(E, fr, i):
+    s = fr.locals["self"]
+    D = as_int_term(s.fields["depth"])
+    root = ops.seq_term_as(s.fields["root_hash"], "int")
+    p = as_int_term(fr.locals["path"])
+    it = as_int_term(i)
+    unfold_pn(E, root, p, D, it)
+    unfold_dn(E, pn(root, p, D, it), D - it - 1, p)
+    unfold_wfh(E, pn(root, p, D, it), D - it - 1)
+    unfold_wfh(E, pn(root, p, D, it - 1), D - it)
+    unfold_pn(E, root, p, D, it - 1)
+    eq = bind_pow2_local(E, fr, "target_bit", D - 1 - it, it < D)
+    br = fr.locals["branch"]
+    bt = br.seq.t if br.seq is not None else ops.seq_term(tuple(br.items)) if br.items else z3.Empty(SeqSeqI)
+    j = z3.Int("j!seen")
+    has = s.fields["db"].has
+    return [("target-bit", eq),
+            ("nodes-above-are-present", mk_bool(z3.ForAll([j], z3.Implies(z3.And(j >= 0, j < it), z3.Select(has, pn(root, p, D, j))),
+                                                          patterns=[pn(root, p, D, j)]))),
+            ("node-hash-is-the-path-node", mk_bool(ops.seq_term_as(fr.locals["node_hash"], "int") == pn(root, p, D, it))),
+            ("same-leaf-from-here", mk_bool(dn(pn(root, p, D, it), D - it, p) == dn(root, D, p))),
+            ("path-nodes-root-well-formed-subtrees", mk_bool(z3.And(wfh(pn(root, p, D, it), D - it),
+                                                                   path_wf_clause(root, p, D, it)))),
+            ("branch-holds-the-siblings-so-far", mk_bool(siblings_clause(bt, root, p, D, it)))]
+
+
+# get / branch / exists / delete and the dictionary syntax ---------------------------------------------------
+def api_setup(with_value=False):
+    def setup(E):
+        t = mk_tree(E)
+        assume_tree_wf(E, t.fields["root_hash"].t, as_int_term(t.fields["depth"]))
+        args = {"self": t, "key": E.fresh_seq("key", "bytes")}
+        if with_value:
+            args["value"] = E.fresh_seq("value", "bytes")
+        return args
+    return setup
+
+
+def read_cases(kind):
+    def cases(E, ctx):
+        s, D, root, p = tree_terms(ctx, ctx.key)
+        has = ctx.old_has(s.fields["db"])
+        ok = good_key(ctx, ctx.key)
+        comp = complete(has, root, p, D)
+        val = unk(dn(root, D, p))
+        present = z3.Length(val) > 0
+        unit_mode = hasattr(ctx, "outcome")
+        if kind == "exists":
+            return [Case("answer", when=mk_bool(z3.And(ok, comp)), returns=lambda: mk_bool(present)),
+                    Case("node-missing-reads-as-absent", when=mk_bool(z3.And(ok, z3.Not(comp))), returns=lambda: False),
+                    Case("bad-key", when=mk_bool(z3.Not(ok)), raises=vt(E))]
+        if kind == "get":
+            res = Case("value", when=mk_bool(z3.And(ok, comp, present)), returns=lambda: SSeq(val, "bytes"))
+        else:
+            def ens(b):
+                return [("branch-holds-the-siblings-root-to-leaf", mk_bool(siblings_clause(ops.seq_term(b), root, p, D, D)))]
+
+            def make():
+                b = E.fresh_seq("branch", "tuple", "bytes")
+                assume_siblings(E, b.t, root, p, D)
+                return b
+            res = Case("branch", when=mk_bool(z3.And(ok, comp, present)), ensures=ens if unit_mode else None,
+                       make=None if unit_mode else make)
+        return [res,
+                Case("blank-reads-as-absent", when=mk_bool(z3.And(ok, comp, z3.Not(present))), raises=KeyError),
+                Case("node-missing", when=mk_bool(z3.And(ok, z3.Not(comp))), raises=KeyError),
+                Case("bad-key", when=mk_bool(z3.Not(ok)), raises=vt(E))]
+    return cases
+
+
+def register_tree(reg):
+    g = "smt_tree"
+    T = MOD + ":SparseMerkleTree."
+    reg.add(g, Contract(T + "_get", ["self", "key"], sget_cases, setup=sget_setup, props=("C14",), requires=tree_wf_requires,
+                        loops={0: LoopSpec(sget_inv, havoc=lambda fr: [fr.locals["branch"]],
+                                           fresh={"node": "unbound", "left": "unbound", "right": "unbound"})}))
+    reg.add(g, Contract(T + "get", ["self", "key"], read_cases("get"), setup=api_setup(), props=("C14",), requires=tree_wf_requires))
+    reg.add(g, Contract(T + "branch", ["self", "key"], read_cases("branch"), setup=api_setup(), props=("C14",), requires=tree_wf_requires))
+    reg.add(g, Contract(T + "exists", ["self", "key"], read_cases("exists"), setup=api_setup(), props=("C14",), requires=tree_wf_requires))
+    reg.add(g, Contract(T + "__getitem__", ["self", "key"], read_cases("get"), setup=api_setup(), props=("C14",), requires=tree_wf_requires))
+    reg.add(g, Contract(T + "__contains__", ["self", "key"], read_cases("exists"), setup=api_setup(), props=("C14",), requires=tree_wf_requires))
+
+
+# set ----------------------------------------------------------------------------------------------------
+QP = z3.Int("q!probe")       # ghost: an arbitrary integer key; the view clause is proved for it, hence for every key
+
+
+def sset_setup(E):
+    t = mk_tree(E)
+    key = E.fresh_seq("key", "bytes")
+    value = E.fresh_seq("value", "bytes")
+    assume_tree_wf(E, t.fields["root_hash"].t, as_int_term(t.fields["depth"]))
+    db = t.fields["db"]
+    E.ghost["sset_db0"] = (db.has, db.val)
+    E.ghost["sset_value"] = value.t
+    return {"self": t, "key": key, "value": value}
+
+
+def grows(has, val, has0, val0):
+    x = z3.Const("x!grow", SeqI)
+    return z3.ForAll([x], z3.Implies(z3.Select(has0, x), z3.And(z3.Select(has, x), z3.Select(val, x) == z3.Select(val0, x))),
+                     patterns=[z3.Select(has, x), z3.Select(val, x)])
+
+
+def sset_cases(E, ctx):
+    s, D, root, p = tree_terms(ctx, ctx.key)
+    db = s.fields["db"]
+    has0, val0 = ctx.old_has(db), ctx.old_val(db)
+    ok = good_key(ctx, ctx.key)
+    comp = complete(has0, root, p, D)
+    V = ops.seq_term_as(ctx.value, "int")
+    unit_mode = hasattr(ctx, "outcome")
+
+    def clauses(ret):
+        new_root = ops.seq_term_as(s.fields["root_hash"], "int")
+        return [("view", mk_bool(dn(new_root, D, QP) == z3.If(agree(p, QP, D), specfn.keccak(V), dn(root, D, QP)))),
+                ("one-hash-per-level-is-returned", mk_bool(z3.Length(ops.seq_term(ret)) == D)),
+                ("new-root-is-stored", mk_bool(z3.Select(db.has, new_root))),
+                ("tree-stays-well-formed", mk_bool(z3.And(wfh(new_root, D), z3.Length(new_root) == 32))),
+                ("store-only-grows", mk_bool(grows(db.has, db.val, has0, val0)))]
+
+    def make():
+        ret = E.fresh_seq("updated", "tuple", "bytes")
+        new_root = ops.seq_term_as(s.fields["root_hash"], "int")
+        E.assume(mk_bool(z3.Length(new_root) == 32))
+        for (_n, c) in clauses(ret):
+            E.assume(c)
+        E.ghost.setdefault("smt_view_rules", []).append((new_root, root, p, D, V))
+        return ret
+    return [Case("updated", when=mk_bool(z3.And(ok, comp)), ensures=clauses if unit_mode else None,
+                 make=None if unit_mode else make, modifies=[db, (s, "root_hash")]),
+            Case("node-missing", when=mk_bool(z3.And(ok, z3.Not(comp))), raises=KeyError, modifies=[]),
+            Case("bad-key", when=mk_bool(z3.Not(ok)), raises=vt(E), modifies=[])]
+
+
+def sset_inv(E, fr, i):
+    s = fr.locals["self"]
+    D = as_int_term(s.fields["depth"])
+    root = ops.seq_term_as(s.fields["root_hash"], "int")
+    p = as_int_term(fr.locals["path"])
+    it = as_int_term(i)
+    node = fr.locals["node"]
+    nt = ops.seq_term_as(node, "int")
+    H = ops.seq_term_as(E.keccak(node), "int")
+    V = E.ghost["sset_value"]
+    E.keccak(SSeq(V, "bytes"))
+    old = pn(root, p, D, D - it)
+    # one step of every definition at the level the iteration works on (it - 1 -> it) and the next (it -> it + 1)
+    for lv in (it - 1, it):
+        unfold_dn(E, H, lv, QP)
+        unfold_dn(E, pn(root, p, D, D - lv - 1), lv, QP)
+        unfold_agree(E, p, QP, lv)
+        unfold_pn(E, root, p, D, D - lv - 1)
+        inst_path_wf(E, D - lv - 1)
+        unfold_wfh(E, pn(root, p, D, D - lv - 1), lv)
+        unfold_wfh(E, H, lv)
+        inst_siblings(E, D - 1 - lv)
+    eq = bind_pow2_local(E, fr, "target_bit", it, True)
+    has0, val0 = E.ghost["sset_db0"]
+    db = s.fields["db"]
+    pu = fr.locals["proof_update"]
+    n_pu = z3.Length(pu.seq.t) if pu.seq is not None else z3.IntVal(len(pu.items))
+    return [("target-bit", eq),
+            ("one-hash-per-level-so-far", mk_bool(n_pu == it)),
+            ("an-inner-node-is-a-pair-of-hashes", mk_bool(z3.Implies(it >= 1, z3.Length(nt) == 64))),
+            ("view", mk_bool(dn(H, it, QP) == z3.If(agree(p, QP, it), specfn.keccak(V), dn(old, it, QP)))),
+            ("subtree-built-so-far-is-well-formed", mk_bool(wfh(H, it))),
+            ("store-only-grows", mk_bool(grows(db.has, db.val, has0, val0)))]
+
+
+def register_tree_write(reg):
+    g = "smt_tree"
+    T = MOD + ":SparseMerkleTree."
+    reg.add(g, Contract(T + "set", ["self", "key", "value"], sset_cases, setup=sset_setup, props=("C14",), requires=tree_wf_requires,
+                        loops={0: LoopSpec(sset_inv, havoc=lambda fr: [fr.locals["self"].fields["db"], fr.locals["proof_update"]],
+                                           fresh={"node_hash": "unbound"})}))
+
+
+# delete and the dictionary syntax for writes --------------------------------------------------------------
+def write_api_cases(kind):
+    """delete(key) = set(key, default); t[key] = v; del t[key]: the same view clause (value: the default for deletes)"""
+    def cases(E, ctx):
+        s, D, root, p = tree_terms(ctx, ctx.key)
+        db = s.fields["db"]
+        has0, val0 = ctx.old_has(db), ctx.old_val(db)
+        ok = good_key(ctx, ctx.key)
+        comp = complete(has0, root, p, D)
+        V = ops.seq_term_as(ctx.value if kind == "setitem" else ctx.old_field(s, "_default"), "int")
+        E.keccak(SSeq(V, "bytes"))
+
+        def post():
+            new_root = ops.seq_term_as(s.fields["root_hash"], "int")
+            return [("view", mk_bool(dn(new_root, D, QP) == z3.If(agree(p, QP, D), specfn.keccak(V), dn(root, D, QP)))),
+                    ("new-root-is-stored", mk_bool(z3.Select(db.has, new_root))),
+                    ("tree-stays-well-formed", mk_bool(z3.And(wfh(new_root, D), z3.Length(new_root) == 32))),
+                    ("store-only-grows", mk_bool(grows(db.has, db.val, has0, val0)))]
+
+        def ens(ret):
+            return [("one-hash-per-level-is-returned", mk_bool(z3.Length(ops.seq_term(ret)) == D))]
+        upd = Case("updated", when=mk_bool(z3.And(ok, comp)), post=post, modifies=[db, (s, "root_hash")])
+        if kind == "delete":
+            upd.ensures = ens
+        else:
+            upd.returns = lambda: None
+        return [upd,
+                Case("node-missing", when=mk_bool(z3.And(ok, z3.Not(comp))), raises=KeyError, modifies=[]),
+                Case("bad-key", when=mk_bool(z3.Not(ok)), raises=vt(E), modifies=[])]
+    return cases
+
+
+def write_api_setup(with_value):
+    def setup(E):
+        t = mk_tree(E)
+        key = E.fresh_seq("key", "bytes")
+        assume_tree_wf(E, t.fields["root_hash"].t, as_int_term(t.fields["depth"]))
+        args = {"self": t, "key": key}
+        if with_value:
+            args["value"] = E.fresh_seq("value", "bytes")
+        return args
+    return setup
+
+
+def register_tree_write2(reg):
+    g = "smt_tree"
+    T = MOD + ":SparseMerkleTree."
+    reg.add(g, Contract(T + "delete", ["self", "key"], write_api_cases("delete"), setup=write_api_setup(False),
+                        props=("C14",), callee=False))
+    reg.add(g, Contract(T + "__setitem__", ["self", "key", "value"], write_api_cases("setitem"),
+                        setup=write_api_setup(True), props=("C14",), callee=False))
+    reg.add(g, Contract(T + "__delitem__", ["self", "key"], write_api_cases("delitem"), setup=write_api_setup(False),
+                        props=("C14",), callee=False))
+
+
+# __init__ and from_db ---------------------------------------------------------------------------------------
+def sinit_setup(E):
+    o = Obj(objs.cls_of(E, "trie.smt", "SparseMerkleTree"), {})
+    ks = E.fresh_int("key_size")
+    E.assume(mk_bool(z3.And(ks.t >= 1, ks.t <= 32)))
+    default = E.fresh_seq("default", "bytes")
+    E.ghost["sinit_default"] = default.t
+    return {"self": o, "key_size": ks, "default": default}
+
+
+def content_addressed(has, val):
+    x = z3.Const("x!ca", SeqI)
+    return z3.ForAll([x], z3.Implies(z3.Select(has, x), x == specfn.keccak(z3.Select(val, x))), patterns=[z3.Select(has, x)])
+
+
+def sinit_cases(E, ctx):
+    s = ctx.self
+    ks = as_int_term(ctx.key_size)
+    Dv = ops.seq_term_as(ctx.default, "int")
+    E.keccak(SSeq(Dv, "bytes"))
+
+    def post():
+        f = s.fields
+        try:
+            root = ops.seq_term_as(f["root_hash"], "int")
+            db = f["db"]
+            D = as_int_term(f["depth"])
+            out = [("key-size", mk_bool(as_int_term(f["_key_size"]) == ks)),
+                   ("depth-is-the-number-of-key-bits", mk_bool(D == 8 * ks)),
+                   ("default-kept", mk_bool(ops.seq_term_as(f["_default"], "int") == Dv)),
+                   ("every-key-reads-as-the-default", mk_bool(dn(root, D, QP) == specfn.keccak(Dv))),
+                   ("tree-well-formed", mk_bool(z3.And(wfh(root, D), z3.Length(root) == 32))),
+                   ("root-is-stored", mk_bool(z3.Select(db.has, root))),
+                   ("store-is-content-addressed", mk_bool(content_addressed(db.has, db.val)))]
+        except (KeyError, Unsupported) as e:
+            return [("object-initialised (%r)" % (e,), False)]
+        return out
+    return [Case("initialised", returns=lambda: None, post=post, modifies=[s])]
+
+
+def sinit_inv(E, fr, i):
+    s = fr.locals["self"]
+    it = as_int_term(i)
+    node = fr.locals["node"]
+    nt = ops.seq_term_as(node, "int")
+    H = ops.seq_term_as(E.keccak(node), "int")
+    Dv = E.ghost["sinit_default"]
+    for lv in (it - 1, it):
+        unfold_dn(E, H, lv, QP)
+        unfold_wfh(E, H, lv)
+    db = s.fields["db"]
+    E.dict_type(db, b"", b"")          # `self.db = {}`: give the (still empty) dictionary its symbolic form
+    return [("every-key-below-reads-as-the-default", mk_bool(dn(H, it, QP) == specfn.keccak(Dv))),
+            ("an-inner-node-is-a-pair-of-hashes", mk_bool(z3.Implies(it >= 1, z3.Length(nt) == 64))),
+            ("subtree-built-so-far-is-well-formed", mk_bool(wfh(H, it))),
+            ("store-is-content-addressed", mk_bool(content_addressed(db.has, db.val)))]
+
+
+def register_tree_init(reg):
+    g = "smt_tree"
+    T = MOD + ":SparseMerkleTree."
+    reg.add(g, Contract(T + "__init__", ["self", "key_size", "default"], sinit_cases, setup=sinit_setup, props=("C14",),
+                        loops={0: LoopSpec(sinit_inv, havoc=lambda fr: [fr.locals["self"].fields["db"]],
+                                           fresh={"node_hash": "unbound"})}, callee=False))
+
+
+def fromdb_setup(E):
+    ks = E.fresh_int("key_size")
+    E.assume(mk_bool(z3.And(ks.t >= 1, ks.t <= 32)))
+    default = E.fresh_seq("default", "bytes")
+    E.ghost["sinit_default"] = default.t
+    db = E.fresh_dict("db", "bytes", "bytes")
+    return {"cls": objs.cls_of(E, "trie.smt", "SparseMerkleTree"), "db": db, "root_hash": objs.hash32(E, "root"),
+            "key_size": ks, "default": default}
+
+
+def fromdb_cases(E, ctx):
+    def ens(t):
+        if not isinstance(t, Obj):
+            return [("returns-a-tree", False)]
+        f = t.fields
+        try:
+            return [("reads-the-given-database", f["db"] is ctx.db),
+                    ("at-the-given-root", ops.py_eq(f["root_hash"], ctx.root_hash)),
+                    ("key-size", mk_bool(as_int_term(f["_key_size"]) == as_int_term(ctx.key_size))),
+                    ("depth-is-the-number-of-key-bits", mk_bool(as_int_term(f["depth"]) == 8 * as_int_term(ctx.key_size))),
+                    ("default-kept", ops.py_eq(f["_default"], ctx.default))]
+        except KeyError as e:
+            return [("object-initialised (%r)" % (e,), False)]
+    return [Case("opened", ensures=ens, modifies=[])]
+
+
+def register_tree_fromdb(reg):
+    T = MOD + ":SparseMerkleTree."
+    reg.add("smt_tree", Contract(T + "from_db", ["cls", "db", "root_hash", "key_size", "default"], fromdb_cases,
+                                 setup=fromdb_setup, props=("C14",), callee=False))
+
+
+# calc_root --------------------------------------------------------------------------------------------------
+# Pure function.  Contract relative to a ghost tree (root r, well formed, content addressed along the key's path):
+# given the leaf content of the key and the siblings on its path (root -> leaf), it returns r.
+
+def croot_setup(E):
+    key = E.fresh_seq("key", "bytes")
+    value = E.fresh_seq("value", "bytes")
+    branch = E.fresh_seq("branch", "tuple", "bytes")
+    r = objs.hash32(E, "ghost_root").t
+    D = 8 * z3.Length(key.t)
+    p = to_int(key.t)
+    E.assume(mk_bool(z3.Length(branch.t) == D))
+    E.assume(mk_bool(value.t == unk(pn(r, p, D, D))))
+    E.assume(mk_bool(specfn.keccak(unk(pn(r, p, D, D))) == pn(r, p, D, D)))
+    E.ghost["croot"] = (r, p, D, branch.t)
+    return {"key": key, "value": value, "branch": branch}
+
+
+def croot_cases(E, ctx):
+    r, p, D, b = E.ghost["croot"]
+    return [Case("root", returns=lambda: SSeq(r, "bytes"))]
+
+
+def croot_inv(E, fr, i):
+    r, p, D, b = E.ghost["croot"]
+    it = as_int_term(i)
+    for lv in (it - 1, it):
+        idx = D - 1 - lv
+        unfold_pn(E, r, p, D, idx)
+        cur = pn(r, p, D, idx)
+        # the ghost tree along the path (preconditions of the contract, instantiated at the level being folded):
+        # the node is a pair of hashes, it is stored under the hash of its content, the branch holds its other child
+        E.assume(mk_bool(z3.Implies(z3.And(idx >= 0, idx < D),
+                                    z3.And(z3.Length(unk(cur)) == 64, specfn.keccak(unk(cur)) == cur,
+                                           b[idx] == sib(r, p, D, idx)))))
+    eq = bind_pow2_local(E, fr, "target_bit", it, True)
+    return [("target-bit", eq),
+            ("node-hash-is-the-path-node", mk_bool(ops.seq_term_as(fr.locals["node_hash"], "int") == pn(r, p, D, D - it)))]
+
+
+def register_calc_root(reg):
+    reg.add("smt_tree", Contract(MOD + ":calc_root", ["key", "value", "branch"], croot_cases, setup=croot_setup,
+                                 props=("C14", "C15"), loops={0: LoopSpec(croot_inv)}, callee=False))
